@@ -2,6 +2,7 @@
 use vcore::SubCheck;
 
 pub mod util;
+pub mod c01;
 pub mod c02;
 pub mod c03;
 pub mod c05;
@@ -16,6 +17,7 @@ pub mod mini;
 pub fn main() -> i32 {
     util::install_panic_hook();
     let mut checks: Vec<Box<dyn SubCheck>> = vec![];
+    checks.extend(c01::checks());
     checks.extend(c02::checks());
     checks.extend(c03::checks());
     checks.extend(c05::checks());
